@@ -1079,44 +1079,56 @@ namespace awkward {
       }
 
       if (convert_deep) {
-        if (ListOffsetArray64* raw1 = dynamic_cast<ListOffsetArray64*>(out.get())) {
-          if (ListOffsetArray64* raw2 = dynamic_cast<ListOffsetArray64*>(raw1->content().get())) {
-            out = std::make_shared<ListOffsetArray64>(raw1->identities(),
-                                                      raw1->parameters(),
-                                                      raw1->offsets(),
-                                                      raw2->toRegularArray());
+        try {
+          if (ListOffsetArray64* raw1 = dynamic_cast<ListOffsetArray64*>(out.get())) {
+            if (ListOffsetArray64* raw2 = dynamic_cast<ListOffsetArray64*>(raw1->content().get())) {
+              out = std::make_shared<ListOffsetArray64>(raw1->identities(),
+                                                        raw1->parameters(),
+                                                        raw1->offsets(),
+                                                        raw2->toRegularArray());
+            }
+            else if (ListArray64* raw2 = dynamic_cast<ListArray64*>(raw1->content().get())) {
+              out = std::make_shared<ListOffsetArray64>(raw1->identities(),
+                                                        raw1->parameters(),
+                                                        raw1->offsets(),
+                                                        raw2->toRegularArray());
+            }
           }
-          else if (ListArray64* raw2 = dynamic_cast<ListArray64*>(raw1->content().get())) {
-            out = std::make_shared<ListOffsetArray64>(raw1->identities(),
-                                                      raw1->parameters(),
-                                                      raw1->offsets(),
-                                                      raw2->toRegularArray());
+          else if (ListArray64* raw1 = dynamic_cast<ListArray64*>(out.get())) {
+            if (ListOffsetArray64* raw2 = dynamic_cast<ListOffsetArray64*>(raw1->content().get())) {
+              out = std::make_shared<ListArray64>(raw1->identities(),
+                                                  raw1->parameters(),
+                                                  raw1->starts(),
+                                                  raw1->stops(),
+                                                  raw2->toRegularArray());
+            }
+            else if (ListArray64* raw2 = dynamic_cast<ListArray64*>(raw1->content().get())) {
+              out = std::make_shared<ListArray64>(raw1->identities(),
+                                                  raw1->parameters(),
+                                                  raw1->starts(),
+                                                  raw1->stops(),
+                                                  raw2->toRegularArray());
+            }
           }
         }
-        else if (ListArray64* raw1 = dynamic_cast<ListArray64*>(out.get())) {
-          if (ListOffsetArray64* raw2 = dynamic_cast<ListOffsetArray64*>(raw1->content().get())) {
-            out = std::make_shared<ListArray64>(raw1->identities(),
-                                                raw1->parameters(),
-                                                raw1->starts(),
-                                                raw1->stops(),
-                                                raw2->toRegularArray());
-          }
-          else if (ListArray64* raw2 = dynamic_cast<ListArray64*>(raw1->content().get())) {
-            out = std::make_shared<ListArray64>(raw1->identities(),
-                                                raw1->parameters(),
-                                                raw1->starts(),
-                                                raw1->stops(),
-                                                raw2->toRegularArray());
-          }
+        catch (std::invalid_argument&) {
+          // the reduced lists are not all of the same length (some groups are
+          // empty): keep the variable-length result
         }
       }
 
       if (convert_shallow) {
-        if (ListOffsetArray64* raw1 = dynamic_cast<ListOffsetArray64*>(out.get())) {
-          out = raw1->toRegularArray();
+        try {
+          if (ListOffsetArray64* raw1 = dynamic_cast<ListOffsetArray64*>(out.get())) {
+            out = raw1->toRegularArray();
+          }
+          else if (ListArray64* raw1 = dynamic_cast<ListArray64*>(out.get())) {
+            out = raw1->toRegularArray();
+          }
         }
-        else if (ListArray64* raw1 = dynamic_cast<ListArray64*>(out.get())) {
-          out = raw1->toRegularArray();
+        catch (std::invalid_argument&) {
+          // the reduced lists are not all of the same length (some groups are
+          // empty): keep the variable-length result
         }
       }
     }
